@@ -77,6 +77,27 @@ def register(op):
         dep.clear_memory()
         return res
 
+    @op("legacy_distance")
+    def _(a):
+        """rotation distances of the legacy model: a registered complex A (its canonical form, `rotations`, size), then the
+        request B (usually a rotation of A): [canonical form, rotations, size, outcome of B] with outcome
+        ["duplicate", error.rotations, existing is A] / ["created", canonical form, rotations]; the harness states what the
+        numbers mean (rotating the canonical form `rotations` times gives the representation, rotating A's representation
+        `error.rotations` times gives B)"""
+        sa, ta, sb, tb = a
+        dep.clear_memory()
+        x = dep.DSD_Complex(list(sa), list(ta), name="A")
+        res = [ckey(x.canonical_form), x.rotations, x.size]
+        if [str(d) for d in x.sequence] != [str(d) for d in sa] or list(x.structure) != list(ta):
+            raise RuntimeError("the canonical form search left the legacy complex in another representation")
+        try:
+            y = dep.DSD_Complex(list(sb), list(tb), name="B")
+            res.append(["created", ckey(y.canonical_form), y.rotations])
+        except dep.DSDDuplicationError as e:
+            res.append(["duplicate", e.rotations, e.existing is x])
+        dep.clear_memory()
+        return res
+
     @op("legacy_history")
     def _(a):
         """a history of creation requests [(seq, struct, name|None)] through the legacy and the current object model:
